@@ -16,11 +16,12 @@ func (p *BinaryProtocol) SkipFixed64Type() (int, error) {
 }
 
 func (p *BinaryProtocol) SkipBytesType() (int, error) {
-	v, n := protowire.ConsumeVarint((p.Buf)[p.Read:])
+	// ConsumeBytes rejects a length prefix that exceeds the remaining input, so that
+	// a huge varint can neither overflow int nor reach next() as a non-positive size
+	_, n, all := protowire.ConsumeBytes((p.Buf)[p.Read:])
 	if n < 0 {
 		return n, errDecodeField
 	}
-	all := int(v) + n
 	_, err := p.next(all)
 	return all, err
 }
